@@ -283,7 +283,11 @@ def run_binary(binary, cases, tag):
     path = os.path.join(WORK, "cases_%d_%d_%s.txt" % (os.getpid(), _counter[0], tag))
     write_cases(path, cases)
     with open(path) as f:
-        r = subprocess.run([binary], stdin=f, capture_output=True, text=True)
+        try:
+            r = subprocess.run([binary], stdin=f, capture_output=True, text=True, timeout=float(os.environ.get("VERIF_RUN_TIMEOUT", 1500)))
+        except subprocess.TimeoutExpired:
+            os.unlink(path)
+            raise BuildError("%s did not finish a batch of %d cases within the time limit (non-termination?)" % (binary, len(cases)))
     dump = os.environ.get("VERIF_DUMP_CASES")   # tools/coverage.py: keep what was fed to the implementation
     if dump and tag == "impl":
         import shutil
